@@ -51,6 +51,16 @@ VEnc(r) ==
 
 Verdict(r) == IF r.c = "dec" THEN VDec(r) ELSE VEnc(r)
 
+\* Cross-validation of the ORACLE (not of the implementation) against an independent anchor: the
+\* driver attaches CPython's strict json.loads outcome to each UTF-8 document (py.valid, and py.v =
+\* the value in the harness encoding when it has one).  A disagreement is a machinery error.
+XVal(r) ==
+  IF r.c # "dec" \/ ~r.py.has \/ ~ValidUTF8(r.doc) THEN "ok"
+  ELSE LET p == ParseDoc(r.doc) IN
+    IF p.ok # r.py.valid THEN "validity"
+    ELSE IF p.ok /\ r.py.hasv /\ ~p.q /\ ~HasHugeNumber(p.v) /\ ~Decoded(p.v, r.py.v) THEN "value"
+    ELSE "ok"
+
 \* one trivial initial state: deep RECURSIVE evaluation stays out of initial states
 K == 64
 Init == i = 0
@@ -58,7 +68,7 @@ Next == IF i = 0 THEN i' \in 1..(IF Len(Recs) < K THEN Len(Recs) ELSE K)
         ELSE i + K <= Len(Recs) /\ i' = i + K
 Check == i = 0 \/
          LET v == Verdict(Recs[i]) IN
-         \/ v = "ok"
-         \/ PrintT(<<"VERDICT", Recs[i].id, v>>)
+         /\ (v = "ok" \/ PrintT(<<"VERDICT", Recs[i].id, v>>))
+         /\ LET x == XVal(Recs[i]) IN x = "ok" \/ PrintT(<<"XVAL", Recs[i].id, x>>)
 Done == PrintT(<<"CHECKED", TLCGet("stats").distinct - 1>>)
 =============================================================================
